@@ -176,12 +176,13 @@ def run(repo: Repo, ctx) -> None:
     for k in tags:
         ctx.ob('C14.R2', f'encoder-for={k}', k in all_emitted,
                f'no encoder emits tag {k}', tagcls.loc, sample='emitted')
-        if k in NO_DECODER:
-            ctx.ob('C14.R2', f'decoder-for={k}', k not in decoders,
-                   f'{k} now has a decoder: drop it from the exception '
-                   f'table', tagcls.loc, sample='exception: ' + NO_DECODER[k],
+        if k in NO_DECODER and k not in decoders:
+            ctx.ob('C14.R2', f'decoder-for={k}', True,
+                   '', tagcls.loc, sample='exception: ' + NO_DECODER[k],
                    nontrivial=False)
         else:
+            # (a listed exception that got a decoder after all is simply
+            # held to the rule again)
             n = len(decoders.get(k, []))
             ctx.ob('C14.R2', f'decoder-for={k}', n == 1,
                    f'tag {k} has {n} registered decoders (later '
